@@ -161,6 +161,9 @@ def c04_inputs(rng, quick):
     for n in (list(range(1, 70)) + list(range(70, 420, 7 if quick else 1))):
         z = "0" * n
         out += ["0." + z, "-0." + z, "0." + z + "1", "1." + z, "0." + z + "e1", "0." + z + "E-5", "10." + z + "1"]
+    # the overflow boundary at every mantissa length and the other class edges (scripts/gen_num_atoms.py)
+    import gen_num_atoms
+    out += gen_num_atoms.atoms()
     # zeros written with many digits / huge exponents
     out += ["0e999999", "-0e-999999", "0." + "0" * 400, "0." + "0" * 400 + "e500", "-0.0", "0.0e-0", "0" + "." + "0" * 20 + "1e21"]
     # overflow boundary
